@@ -28,3 +28,5 @@ mod reloc;
 mod wprim;
 #[cfg(kani)]
 mod uctx;
+#[cfg(kani)]
+mod ehhdr;
